@@ -337,6 +337,12 @@ func c01ShiftHistory(c *Ctx) {
 			if derr != nil || ref.Base32EncodeNoPad(k) != f[0] {
 				return // not a canonical spelling of some key
 			}
+			// a caller that also decodes the secret itself and wipes its copy afterwards (it owns the returned bytes)
+			if own, e := otp.DecodeSecret(f[0]); e == nil {
+				for j := range own {
+					own[j] = 0
+				}
+			}
 			judgeHOTP(c, hotpCase{KeyHex: hexs(k), Secret: f[0], Counter: cv, Digits: uint8(dv), Algo: uint8(i % 3)})
 			c.R.Count("shifted_field_history_calls", 1)
 		}
